@@ -25,8 +25,10 @@ ASSUMPTIONS = [
     "a per-call wall-clock guard (harness timeout) makes a case inconclusive, never a violation",
 ]
 N = {"quick": 1000, "thorough": 30000}
-SWEEP = {"quick": 6, "thorough": 80}
-BIG = {"amoco.arch.x64.cpu_x64": 5, "amoco.arch.x86.cpu_x86": 5, "amoco.arch.arm.cpu_armv7": 2, "amoco.arch.tricore.cpu": 2}
+SWEEP = {"quick": 10, "thorough": 80}
+BIG = {"amoco.arch.x64.cpu_x64": 10, "amoco.arch.x86.cpu_x86": 10, "amoco.arch.arm.cpu_armv7": 2, "amoco.arch.tricore.cpu": 2}
+# the flagship ISAs get a larger share: prefix x operand-form combinations multiply their input space
+BOOST = {"amoco.arch.x64.cpu_x64": 4, "amoco.arch.x86.cpu_x86": 4}
 
 
 def shards(tier, seed):
@@ -166,7 +168,7 @@ def run_shard(shard, tier, seed):
     part.count("formatters", len(fmts))
     modes = I.modes()
     for (mode, e) in modes:
-        n = max(N[tier] // len(modes), SWEEP[tier] * len(I.specs[mode])) // shard.get("nsub", 1) + 1
+        n = max(N[tier] // len(modes), SWEEP[tier] * BOOST.get(I.name, 1) * len(I.specs[mode])) // shard.get("nsub", 1) + 1
 
         def body(rnd, mode=mode, e=e):
             b = I.gen_bytes(rnd, mode, e)
